@@ -1732,6 +1732,12 @@ class Interp:
             return getattr(_b, name)
         if name == "callable":
             return lambda v: isinstance(v, (Bound, ClsMethod, Closure, FuncInfo, ClassInfo)) or callable(v)
+        if name == "vars":
+            def vars_(o):
+                if isinstance(o, Obj):
+                    return o.f          # the instance dictionary itself (writes through it reach the object)
+                raise AnalysisAbort(f"vars() of {I.tname(o)}")
+            return vars_
         if name == "print":
             def print_(*a, sep=" ", end="\n", file=None, flush=False):
                 if file is None:
